@@ -3,7 +3,7 @@
 import json, os, glob, re
 HERE = os.path.dirname(os.path.dirname(os.path.abspath(__file__)))
 rows = []
-for d in sorted(glob.glob(os.path.join(HERE, "seeded", "*"))):
+for d in sorted(glob.glob(os.path.join(HERE, "seeded", "C*"))):
     m = json.load(open(os.path.join(d, "meta.json")))
     rows.append("| %s | %s | %s | %s |" % (m["id"], m.get("needs_to_manifest", "").replace("|", "/"), ", ".join(m.get("caught_by") or []) or "**missed**",
                                         m.get("history", "").replace("|", "/")))
